@@ -7,14 +7,13 @@ PROP = dict(
     bounds="every received size (usize), every 40-byte datagram; every finite f64 offset x every 64-bit clock reading for the conversion; loop-free code",
     outside="the tokio UnixDatagram receive loop and tokio::select! in SockSourceTask::run (no runtime under Kani); the expression `time - NtpDuration::from_seconds(sample.offset)` is replicated in c40_conv, not extracted from the task body; what the Kalman filter does with an accepted measurement",
     assumptions=[
-        "c40_sample: the offset field (bytes 16..24) is a finite f64 (non-finite offsets are the known-finding twin c40_sample_kf_nonfinite_offset)",
         "c40_conv: offset finite (NaN/inf reach a debug_assert in from_seconds: dev profile only)",
     ],
     stub_notes=[],
     harnesses=[
-        H(ND, "c40", "c40_sample", "Ok => size == 40, magic, pulse == 0, offset/leap are the wire fields, offset finite; Err => one of the four reasons holds and the error names the first", timeout=600),
+        H(ND, "c40", "c40_sample", "every datagram incl. non-finite offsets: Ok => size == 40, magic, pulse == 0, offset/leap are the wire fields, offset finite; Err => one of the four reasons holds and the error names the first", timeout=600),
         H(ND, "c40", "c40_recv_error", "a failed receive is rejected", timeout=600),
         H(ND, "c40", "c40_conv", "sender_ts = time - from_seconds(offset): no panic, measured offset reproduced, sign kept, saturation", timeout=600),
-        H(ND, "c40", "c40_sample_kf_nonfinite_offset", "EXPECTED TO FAIL (finding): a datagram with NaN/+-inf offset is accepted", timeout=600),
+        H(ND, "c40", "c40_sample_nonfinite_offset", "a datagram with NaN/+-inf offset is rejected (was the known finding fixed by /repo 890ad01)", timeout=600),
     ],
 )
